@@ -15,14 +15,18 @@ import (
 
 func init() {
 	register(&Rule{ID: "R-map-order", Floor: 45, Run: ruleMapOrder,
-		Doc: "C14 (and C15/C19 where noted): Go randomises map iteration, so every `range` over a map in analyzer, analyzer/ast, compiler, runtime(+value), interpreter(+value), optimizer must have an order-insensitive shape, decided from the loop body with interprocedural write summaries: effects only on storage keyed by the loop key / reachable from the visited element; appends sorted before any other use; diagnostics emitted into the accumulating list (compared as a set) without an order-dependent early exit; searches whose exits are unique (key == invariant) or return one and the same invariant value; commutative integer accumulation / constant flags; ReplaceAll accumulation over a literal map whose entries commute. Any other shape must be listed in maporder_reviewed.json (benign, with reason) or it violates; loops reviewed as order-dependent defects violate. Also: no clock/random source, no package-level variable written after init in the pipeline, and the name-mangling counter maps — on whose program-wide uniqueness renameVariables' shared slot table depends while visiting functions in map order — are assigned only at construction and only ever incremented by one function. Breaking any of these makes diagnostics / output / outcome depend on the iteration order of a run."})
+		Doc: "C14 (and C15/C19 where noted): Go randomises map iteration, so every `range` over a map in analyzer, analyzer/ast, compiler, runtime(+value), interpreter(+value), optimizer must have an order-insensitive shape, decided from the loop body with interprocedural write summaries: effects only on storage keyed by the loop key / reachable from the visited element; appends sorted before any other use; diagnostics emitted into the accumulating list (compared as a set) without an order-dependent early exit; searches whose exits are unique (key == invariant) or return one and the same invariant value; commutative integer accumulation / constant flags; ReplaceAll accumulation over a literal map whose entries commute. Any other shape must be listed in maporder_reviewed.json (benign, with reason) or it violates; loops reviewed as order-dependent defects violate. A listed loop is recognised by its key or — when it moved into a helper / another function or its range expression or function was renamed, so that no loop carries the key any more — by package + rename-stable effect signature + type of the ranged map, and keeps its entry and key; a loop whose effects differ from every orphaned entry is reported. Also: no clock/random source, no package-level variable written after init in the pipeline, and the name-mangling counter maps — on whose program-wide uniqueness renameVariables' shared slot table depends while visiting functions in map order — are assigned only at construction and only ever incremented by one function. Breaking any of these makes diagnostics / output / outcome depend on the iteration order of a run."})
 }
 
 type moReviewed struct {
 	Key     string `json:"key"`
 	Status  string `json:"status"` // benign | order-dependent-defect
 	Effects string `json:"effects,omitempty"`
-	Reason  string `json:"reason"`
+	// Ranged: type of the map the reviewed loop ranges over (package-name
+	// qualified, as printed in a "needs review" report). Only an entry that
+	// records it can be inherited by a moved loop.
+	Ranged string `json:"ranged,omitempty"`
+	Reason string `json:"reason"`
 }
 
 type moReviewedFile struct {
@@ -57,11 +61,35 @@ func moLoadReviewed() (map[string]moReviewed, string, error) {
 		return nil, path, err
 	}
 	m := map[string]moReviewed{}
+	moReviewedOrder = nil
 	for _, e := range f.Loops {
+		if _, dup := m[e.Key]; !dup {
+			moReviewedOrder = append(moReviewedOrder, e.Key)
+		}
 		m[e.Key] = e
 	}
 	return m, path, nil
 }
+
+// moReviewedOrder: keys of the reviewed table in file order (deterministic
+// matching of moved loops).
+var moReviewedOrder []string
+
+// moKeyPkg: the package part of a loop key (`<pkg>.<func>|range <expr>`).
+func moKeyPkg(key string) string {
+	if i := strings.Index(key, "|"); i >= 0 {
+		key = key[:i]
+	}
+	if i := strings.Index(key, "."); i >= 0 {
+		return key[:i]
+	}
+	return key
+}
+
+// moSigNorm: effect signatures / map types are compared modulo indirection
+// when a review is inherited by a moved loop (a local struct that becomes a
+// pointer parameter of the helper the loop moved to is still the same place).
+func moSigNorm(s string) string { return strings.ReplaceAll(s, "*", "") }
 
 func (l *moLoop) unreachable() string {
 	var child ast.Node = l.rs
@@ -98,6 +126,15 @@ func ruleMapOrder(c *Ctx) []Obligation {
 		reviewed = map[string]moReviewed{}
 	}
 	used := map[string]bool{}
+	type moPending struct {
+		l     *moLoop
+		ob    Obligation
+		v     moVerdict
+		why   string
+		notes string
+		at    int
+	}
+	var pending []moPending
 	loops := moEnumerate(c)
 	for _, l := range loops {
 		ob := Obligation{Key: l.keyStr, Pos: c.Pos(l.rs.Pos()), Nontrivial: true}
@@ -109,6 +146,10 @@ func ruleMapOrder(c *Ctx) []Obligation {
 		s := &moScan{l: l, a: a, diagT: diagT, c: c}
 		s.stmts(l.rs.Body.List, moCtx{})
 		v := s.decide(c)
+		if os.Getenv("HMS_MO_DUMP") != "" {
+			// maintainer aid: the data a maporder_reviewed.json entry records
+			fmt.Fprintf(os.Stderr, "MO_DUMP\t%s\t%s\t%s\n", l.keyStr, moTypeSig(l.info.TypeOf(l.rs.X)), v.sig)
+		}
 		notes := ""
 		if len(v.notes) > 0 {
 			notes = " [" + strings.Join(v.notes, "; ") + "]"
@@ -123,7 +164,7 @@ func ruleMapOrder(c *Ctx) []Obligation {
 		if r, ok := reviewed[l.keyStr]; ok {
 			used[l.keyStr] = true
 			switch {
-			case r.Effects != "" && r.Effects != v.sig:
+			case r.Effects != "" && r.Effects != v.sig && r.Effects != v.sigLegacy:
 				ob.Status = Undecided
 				ob.Detail = fmt.Sprintf("the review recorded in maporder_reviewed.json is stale: reviewed effects {%s}, the loop now has {%s}. %s", r.Effects, v.sig, why)
 			case r.Status == "benign" && v.violated:
@@ -142,27 +183,151 @@ func ruleMapOrder(c *Ctx) []Obligation {
 			obs = append(obs, ob)
 			continue
 		}
-		ob.Status = Violated
-		if v.violated {
-			ob.Detail = "order-dependent: " + why + notes
-		} else {
-			ob.Detail = fmt.Sprintf("needs review (no order-insensitive shape matched, not in maporder_reviewed.json; effects {%s}): %s%s", v.sig, why, notes)
-		}
-		obs = append(obs, ob)
+		pending = append(pending, moPending{l: l, ob: ob, v: v, why: why, notes: notes, at: len(obs)})
+		obs = append(obs, Obligation{}) // placeholder, filled below
 	}
-	for k := range reviewed {
+	// reviewed entries whose loop no longer exists in the tree
+	loopKeys := map[string]bool{}
+	for _, l := range loops {
+		loopKeys[l.keyStr] = true
+	}
+	// (an entry whose key designates a loop that is decided automatically is
+	// not consumed by that loop either: when the first of two `range m` loops of a
+	// function moves away, the second one takes over its key text)
+	var orphans []string
+	for _, k := range moReviewedOrder {
 		if !used[k] {
-			found := false
-			for _, l := range loops {
-				if l.keyStr == k {
-					found = true
-				}
+			orphans = append(orphans, k)
+		}
+	}
+	// A loop that is not listed may be a reviewed loop that MOVED (into a helper,
+	// into another function, or whose range expression / function was renamed):
+	// it inherits the review of an entry of the same package that matches no loop
+	// any more, provided the rename-stable effect signature and the type of the
+	// ranged map are those the review was made for. The obligation keeps the key
+	// of the reviewed construct. A loop with a new / different effect signature
+	// (or with no orphaned entry to take over) is still reported.
+	inherited := map[string]bool{}
+	var extra []Obligation
+	// matching classes: package + effect signature + ranged map type
+	classOf := func(pkg, sig, ranged string) string {
+		return pkg + "\x00" + moSigNorm(sig) + "\x00" + moSigNorm(ranged)
+	}
+	// an entry recorded with the older name-based spelling of the signature is
+	// compared in that spelling
+	legacyOf := map[string]string{}
+	for _, p := range pending {
+		legacyOf[p.v.sigLegacy] = p.v.sig
+	}
+	orphansOf := map[string][]moReviewed{}
+	for _, k := range orphans {
+		r := reviewed[k]
+		if r.Ranged == "" || r.Effects == "" {
+			continue
+		}
+		eff := r.Effects
+		if st, ok := legacyOf[eff]; ok {
+			eff = st
+		}
+		cl := classOf(moKeyPkg(k), eff, r.Ranged)
+		orphansOf[cl] = append(orphansOf[cl], r)
+	}
+	heirsOf := map[string]int{}
+	rangedOf := func(p moPending) string { return moTypeSig(p.l.info.TypeOf(p.l.rs.X)) }
+	for _, p := range pending {
+		heirsOf[classOf(moKeyPkg(p.l.keyStr), p.v.sig, rangedOf(p))]++
+	}
+	seenHeirs := map[string]int{}
+	for _, p := range pending {
+		ranged := rangedOf(p)
+		cl := classOf(moKeyPkg(p.l.keyStr), p.v.sig, ranged)
+		from := orphansOf[cl]
+		if len(from) == 0 {
+			ob := p.ob
+			ob.Status = Violated
+			if p.v.violated {
+				ob.Detail = "order-dependent: " + p.why + p.notes
+			} else {
+				ob.Detail = fmt.Sprintf("needs review (no order-insensitive shape matched, not in maporder_reviewed.json; effects {%s}, ranged %s): %s%s", p.v.sig, ranged, p.why, p.notes)
 			}
-			if !found {
-				obs = append(obs, Obligation{Key: "reviewed-table|" + k, Status: Info, Detail: "entry of maporder_reviewed.json matches no loop of the current tree (loop removed or renamed)"})
+			obs[p.at] = ob
+			continue
+		}
+		// pair the loops of a class with the orphaned entries of the class in order
+		// (loops in source order, entries in file order): n loops renamed -> one entry
+		// each; two reviewed loops merged into one helper -> the helper's loop takes
+		// both entries (both keys stay); one reviewed loop duplicated -> the copies
+		// beyond the first borrow the review, under their own key
+		i, n, m := seenHeirs[cl], heirsOf[cl], len(from)
+		seenHeirs[cl]++
+		var use []moReviewed
+		ownKey := false
+		switch {
+		case i < n-1 && i < m:
+			use = from[i : i+1]
+		case i == n-1 && i < m:
+			use = from[i:]
+		default:
+			use, ownKey = from[m-1:], true
+		}
+		var outs []Obligation
+		for _, r := range use {
+			ob := p.ob
+			if !ownKey {
+				if !loopKeys[r.Key] {
+					ob.Key = r.Key // the reviewed construct keeps its key
+				} // else: that key text now designates another loop; keys stay unique
+				inherited[r.Key] = true
 			}
+			moved := fmt.Sprintf("the loop reviewed as `%s` no longer exists; this loop (`%s`) has the same effects {%s} over the same map type %s and inherits that review", r.Key, p.l.keyStr, p.v.sig, ranged)
+			switch {
+			case r.Status == "benign" && p.v.violated:
+				ob.Status = Violated
+				ob.Detail = "definite order dependence (a `benign` review cannot cover it): " + p.why
+			case r.Status == "benign":
+				ob.Status = Discharged
+				ob.Detail = fmt.Sprintf("not an automatic shape {%s}; moved loop: %s; reviewed benign: %s", p.v.sig, moved, r.Reason)
+			case r.Status == "order-dependent-defect":
+				ob.Status = Violated
+				ob.Detail = fmt.Sprintf("reviewed ORDER-DEPENDENT DEFECT (moved loop: %s): %s — analysis: %s", moved, r.Reason, p.why)
+			default:
+				ob.Status = Undecided
+				ob.Detail = "maporder_reviewed.json: unknown status " + r.Status
+			}
+			outs = append(outs, ob)
+		}
+		// obligations that could not keep a reviewed key (it now designates another
+		// loop) collapse into one under the loop's own key: the most severe
+		rank := map[Status]int{Violated: 3, Undecided: 2, Discharged: 1, Info: 0}
+		var own *Obligation
+		var keep []Obligation
+		for i := range outs {
+			if outs[i].Key != p.ob.Key {
+				keep = append(keep, outs[i])
+			} else if own == nil || rank[outs[i].Status] > rank[own.Status] {
+				own = &outs[i]
+			}
+		}
+		if own != nil {
+			keep = append([]Obligation{*own}, keep...)
+		}
+		obs[p.at] = keep[0]
+		extra = append(extra, keep[1:]...)
+	}
+	obs = append(obs, extra...)
+	for _, k := range orphans {
+		if !inherited[k] && !loopKeys[k] {
+			obs = append(obs, Obligation{Key: "reviewed-table|" + k, Status: Info, Detail: "entry of maporder_reviewed.json matches no loop of the current tree (loop removed or renamed)"})
 		}
 	}
 	obs = append(obs, determStateObligations(c, a)...)
+	// keys stay unique whatever the matching above produced
+	seenKey := map[string]int{}
+	for i := range obs {
+		seenKey[obs[i].Key]++
+		if n := seenKey[obs[i].Key]; n > 1 {
+			obs[i].Key = fmt.Sprintf("%s ~%d", obs[i].Key, n)
+		}
+	}
 	return obs
 }
